@@ -377,6 +377,49 @@ def return_shapes(sites):
         param = f.args.args[0].arg
         kinds = []
 
+        def shape(v):
+            if isinstance(v, ast.List) and len(v.elts) == 1 and isinstance(v.elts[0], ast.Name) and v.elts[0].id == param:
+                return "event"
+            if isinstance(v, ast.List) and len(v.elts) == 0:
+                return "empty"
+            if isinstance(v, ast.Name):
+                return "var"
+            if isinstance(v, ast.Call):
+                return "call"
+            return "other"
+
+        # a local that only ever holds list literals and is never mutated or aliased stands for those literals
+        # (single-exit style: `revents = [event] ... return revents`)
+        assigned, tainted = {}, set()
+        for x in ast.walk(f):
+            if isinstance(x, ast.Assign):
+                for t in x.targets:
+                    if isinstance(t, ast.Name):
+                        assigned.setdefault(t.id, []).append(x.value)
+                    else:
+                        for nn in ast.walk(t):
+                            if isinstance(nn, ast.Name):
+                                tainted.add(nn.id)
+            elif isinstance(x, (ast.AugAssign, ast.AnnAssign)) and isinstance(x.target, ast.Name):
+                tainted.add(x.target.id)
+            elif isinstance(x, (ast.For, ast.With, ast.NamedExpr, ast.comprehension)):
+                tg = getattr(x, "target", None)
+                for nn in ast.walk(tg) if tg is not None else []:
+                    if isinstance(nn, ast.Name):
+                        tainted.add(nn.id)
+        for x in ast.walk(f):
+            if isinstance(x, ast.Name) and isinstance(x.ctx, ast.Load) and x.id in assigned:
+                pass
+        uses = {}
+        for x in ast.walk(f):
+            for ch in ast.iter_child_nodes(x):
+                if isinstance(ch, ast.Name) and isinstance(ch.ctx, ast.Load) and ch.id in assigned \
+                        and not isinstance(x, ast.Return):
+                    uses.setdefault(ch.id, []).append(x)      # read anywhere but in `return <name>`: may be mutated / aliased
+        literal_locals = {n: vs for n, vs in assigned.items()
+                          if n not in tainted and n not in uses and n != param
+                          and all(shape(v) in ("event", "empty") for v in vs)}
+
         class V(ast.NodeVisitor):
             def visit_FunctionDef(self, node):
                 if node is f:
@@ -387,16 +430,10 @@ def return_shapes(sites):
 
             def visit_Return(self, node):
                 v = node.value
-                if isinstance(v, ast.List) and len(v.elts) == 1 and isinstance(v.elts[0], ast.Name) and v.elts[0].id == param:
-                    kinds.append("event")
-                elif isinstance(v, ast.List) and len(v.elts) == 0:
-                    kinds.append("empty")
-                elif isinstance(v, ast.Name):
-                    kinds.append("var")
-                elif isinstance(v, ast.Call):
-                    kinds.append("call")
+                if isinstance(v, ast.Name) and v.id in literal_locals:
+                    kinds.extend(shape(x) for x in literal_locals[v.id])
                 else:
-                    kinds.append("other")
+                    kinds.append(shape(v))
         V().visit(f)
         reassigned = any(
             (isinstance(x, (ast.Assign,)) and any(isinstance(t, ast.Name) and t.id == param for t in x.targets)) or
@@ -421,7 +458,8 @@ def generate_returns(sites) -> bool:
 
 _MUTABLE_CTORS = ("dict", "list", "set", "defaultdict", "OrderedDict", "Counter", "deque")
 _HARMLESS_CALLS = ("compile", "getLogger", "frozenset", "tuple", "int", "float", "str", "bool", "range", "auto", "TypeVar",
-                   "namedtuple", "join", "dirname", "Path")
+                   "namedtuple", "join", "dirname", "Path",
+                   "object")      # `object()`: a stateless identity sentinel
 
 
 def process_level_state():
